@@ -82,11 +82,15 @@ class _EvoElement:
             elif spline_kind == "step_func":
                 if len(self.coeff) == len(self.tlist) - 1:
                     self.coeff = np.concatenate([self.coeff, [0.0]])
+                # The last sample has no interval to act on: the coefficient
+                # is zero once the grid of this element has ended.
+                coeff = np.array(self.coeff)
+                coeff[-1] = 0.0
                 if parse_version(qutip.__version__) >= parse_version("5.dev"):
-                    qu = QobjEvo([mat, self.coeff], tlist=self.tlist, order=0)
+                    qu = QobjEvo([mat, coeff], tlist=self.tlist, order=0)
                 else:
                     qu = QobjEvo(
-                        [mat, self.coeff],
+                        [mat, coeff],
                         tlist=self.tlist,
                         args={"_step_func_coeff": True},
                     )
@@ -650,6 +654,11 @@ def _fill_coeff(old_coeffs, old_tlist, full_tlist, args=None, tol=1.0e-10):
     if "_step_func_coeff" in args and args["_step_func_coeff"]:
         if len(old_coeffs) == len(old_tlist) - 1:
             old_coeffs = np.concatenate([old_coeffs, [0]])
+        elif len(old_coeffs) == len(old_tlist):
+            # A step coefficient holds its value from one grid point to the
+            # next: the last sample has no interval to act on and must not be
+            # applied after the grid of this pulse has ended.
+            old_coeffs = np.concatenate([old_coeffs[:-1], [0]])
         new_n = len(full_tlist)
         old_ind = 0  # index for old coeffs and tlist
         new_coeff = np.zeros(new_n)
